@@ -4,7 +4,7 @@ import asyncio
 import itertools
 import json
 
-from py_gql.exc import ExecutionError, VariablesCoercionError
+from py_gql.exc import CoercionError, ExecutionError, VariablesCoercionError
 from py_gql.execution import execute, subscribe
 from py_gql.execution.runtime import AsyncIORuntime, BlockingRuntime, ThreadPoolRuntime
 from py_gql.lang import parse
@@ -14,8 +14,8 @@ from .. import ser
 from ..ser_json import cjson
 
 PROP = "C17"
-THEOREMS = ["C17_length_order", "C17_isolation", "C17_isolation_with_aborts", "C17_ends", "C17_sequential_pull",
-            "C17_refusals",
+THEOREMS = ["C17_length_order", "C17_history", "C17_isolation", "C17_isolation_with_aborts", "C17_ends",
+            "C17_sequential_pull", "C17_refusals", "C17_subscribe_exec",
             "C17_isolation_exec", "C17_tables_stay_sound"]
 AXIOMS_OK = []
 RUN_MODULE = "Run.C17run Exec.ResponseModel Exec.SubscribeModel"
@@ -69,6 +69,22 @@ def corpus():
     out.append(_stream(["n_null", "ok", "raw_none"], 1, "chan_async", "sync", [0, 1, 0], 0, ["len"], "late"))
     for r in G.REFUSALS:
         out.append(_refusal(r))
+    # one ObjectType as query, mutation and subscription root (seed C17-e): query / mutation operations are
+    # still refused, variables are still coerced first, and subscriptions still stream
+    # invalid @skip/@include arguments on the root selection set: CoercionError of collect_fields, after the
+    # operation-kind and runtime checks, before the subscription resolver is called
+    for r in G.DIRECTIVE_ARGUMENT_REFUSALS:
+        c = _refusal(r)
+        c["collect_ok"] = False
+        out.append(c)
+    for r in G.SHARED_ROOT_REFUSALS:
+        out.append(_refusal(r, shared=True))
+    c = _stream(["ok", "v_raise", "n_null"], 1, "agen", "sync", [0, 0, 0], 0)
+    c["schema"] = "shared"
+    out.append(c)
+    c = _stream(["ok", "raw_none"], G.SEL_ECHO, "sync", "async", [0, 1], 1)
+    c["schema"] = "shared"
+    out.append(c)
     return out
 
 
@@ -80,10 +96,13 @@ def _stream(variants, sel, source, flavour, delays, consumer_delay, traits=None,
     return c
 
 
-def _refusal(r):
+def _refusal(r, shared=False):
     label, text, runtime, opname, variables, facts = r
-    return {"kind": "refusal", "label": label, "text": text, "runtime": runtime,
-            "operation_name": opname, "variables": variables, "facts": list(facts)}
+    c = {"kind": "refusal", "label": label, "text": text, "runtime": runtime,
+         "operation_name": opname, "variables": variables, "facts": list(facts)}
+    if shared:
+        c["schema"] = "shared"
+    return c
 
 
 def generate(rng, tier):
@@ -330,7 +349,7 @@ def _oracle_text(text):
 
 
 async def _run_stream(case):
-    schema = G.get_schema(case["flavour"])
+    schema = G.get_schema(case["flavour"], shared=case.get("schema") == "shared")
     events = [G.make_event(v, k) for k, v in enumerate(case["variants"])]
     log, counter = [], {"called": 0, "requests": 0, "consumed": 0}
     holder = []
@@ -399,6 +418,8 @@ async def _run_stream(case):
 def _classify_exc(e):
     if isinstance(e, VariablesCoercionError):
         return "VariablesCoercionError"
+    if isinstance(e, CoercionError):
+        return "CoercionError"
     if isinstance(e, ExecutionError):
         return "ExecutionError"
     if isinstance(e, RuntimeError):
@@ -407,7 +428,7 @@ def _classify_exc(e):
 
 
 async def _run_refusal(case):
-    schema = G.get_schema("sync")
+    schema = G.get_schema("sync", shared=case.get("schema") == "shared")
     log, counter = [], {"called": 0, "requests": 0, "consumed": 0}
     events = [G.make_event("ok", 0), G.make_event("ok", 1)]
     G.set_subscription_resolvers(schema, _make_sub_resolver("sync", events, [0, 0], log, counter))
@@ -468,7 +489,8 @@ def _trace(log):
 
 
 _CLS = {"ExecutionError": "OExecutionError", "RuntimeError": "ORuntimeError",
-        "VariablesCoercionError": "OVariablesCoercionError", "none": "ONoException"}
+        "VariablesCoercionError": "OVariablesCoercionError", "CoercionError": "OCoercionError",
+        "none": "ONoException"}
 
 
 def to_coq(case, obs):
@@ -477,8 +499,9 @@ def to_coq(case, obs):
             ser.clist(obs["fresh"], _split), ser.clist(obs["observed"], _obs), _trace(obs["trace"]),
             ser.cbool(obs["ended"]), obs["consumed"])
     f = case["facts"]
-    q = "(SubRequest %s %s %s %s (N.to_nat %d) %s %s)" % (
-        ser.cbool(f[0]), ser.cbool(f[1]), ser.cbool(f[2]), ser.cbool(f[3]), f[4], ser.cbool(f[5]), ser.cbool(f[6]))
+    q = "(SubRequest %s %s %s %s %s (N.to_nat %d) %s %s)" % (
+        ser.cbool(f[0]), ser.cbool(f[1]), ser.cbool(f[2]), ser.cbool(f[3]), ser.cbool(case.get("collect_ok", True)),
+        f[4], ser.cbool(f[5]), ser.cbool(f[6]))
     return "(CRefusal %s %s %s %d)" % (q, _CLS.get(obs["cls"], "OOther"), ser.cbool(obs["called"] > 0),
                                        obs["consumed"] + obs["requests"])
 
@@ -488,8 +511,9 @@ def show_expr(case, obs):
         return "match model_stream %s with Some (s, rs) => (map resp_of rs, ss_trace s) | None => ([], []) end" % (
             ser.clist(obs["fresh"], _split))
     f = case["facts"]
-    return "subscribe unit nat json tt (SubRequest %s %s %s %s (N.to_nat %d) %s %s) []" % (
-        ser.cbool(f[0]), ser.cbool(f[1]), ser.cbool(f[2]), ser.cbool(f[3]), f[4], ser.cbool(f[5]), ser.cbool(f[6]))
+    return "subscribe unit nat json tt (SubRequest %s %s %s %s %s (N.to_nat %d) %s %s) []" % (
+        ser.cbool(f[0]), ser.cbool(f[1]), ser.cbool(f[2]), ser.cbool(f[3]), ser.cbool(case.get("collect_ok", True)),
+        f[4], ser.cbool(f[5]), ser.cbool(f[6]))
 
 
 def nontrivial(case, obs):
